@@ -171,9 +171,14 @@ ilu_zcopy_to_ucol(
 		d_max = 1.0 / d_max; d_min = 1.0 / d_min;
 		tol = 1.0 / (d_max + (d_min - d_max) * quota / m);
 	    } else {
+/* ILU keeps repeated row indices (with explicit zeros), so the
+		   column can hold more than the n entries work[] has room for. */
+		double *sel = work;
+		if ( m > Glu->n ) sel = doubleMalloc(m);
                 i_1 = xusub[jcol];
-                for (i = 0; i < m; ++i, ++i_1) work[i] = z_abs1(&ucol[i_1]);
-		tol = dqselect(m, work, quota);
+                for (i = 0; i < m; ++i, ++i_1) sel[i] = z_abs1(&ucol[i_1]);
+		tol = dqselect(m, sel, quota);
+		if ( sel != work ) SUPERLU_FREE(sel);
 #if 0
 		A = &ucol[xusub[jcol]];
 		for (i = 0; i < m; i++) work[i] = i;
